@@ -8,6 +8,7 @@ from __future__ import annotations
 import ctypes
 import dis
 import sys
+from collections import Counter
 from dataclasses import dataclass, field, replace
 from typing import Callable, Generic, Hashable, Iterable, Optional, Tuple, TypeVar
 
@@ -65,7 +66,7 @@ def bytes_to_blocks(
     # args
     found_varnames = ToArgs(varnames, {i: i for i in range(len(args.parameters))})
     found_cellvars = ToArgs(cellvars)
-    found_constants = ToArgs(constants)
+    found_constants = ToArgs(constants, _hash_fn=constant_key)
 
     # If we have a function block and a docstring, the first constant is the docstring.
     if isinstance(block_type, Function) and block_type.docstring is not None:
@@ -371,11 +372,21 @@ class ToArgs(Generic[T]):
     # Mapping of the actual index argument to the position it was
     # found
     _index_to_order: dict[int, int] = field(default_factory=dict)
+    _hash_fn: Callable[[T], Hashable] = field(default=hash)
+
+    def __post_init__(self) -> None:
+        # Indices of args which occur more than once. They cannot be looked up by
+        # value when encoding, so they always keep their position.
+        keys = [self._hash_fn(arg) for arg in self._args]
+        counts = Counter(keys)
+        self._duplicates = {i for i, k in enumerate(keys) if counts[k] > 1}
 
     def found_index(self, index: int) -> tuple[T, Optional[int]]:
         if index not in self._index_to_order:
-            self._index_to_order[index] = len(self._args)
-        wrong_position = self._index_to_order[index] != index
+            self._index_to_order[index] = len(self._index_to_order)
+        wrong_position = (
+            self._index_to_order[index] != index or index in self._duplicates
+        )
         return self._args[index], index if wrong_position else None
 
     def __len__(self) -> int:
